@@ -111,7 +111,8 @@ func c06CLITasks() []mc.Task {
 		defer box.close()
 		aligned := [][]string{{"ACgt-RYn", "TTGCA-ac", "GgCcAaNN"}, {"acgu", "ACGT"}, {"A-C.G*", "a-c.g*"}}
 		ragged := [][]string{{"ACgt-RY", "TTg", "GgCcAaNNkm"}, {"a", "ACGT-"}}
-		nameSets := [][]string{nil, {"a"}, {"b", "a"}, {c06Unknown, "b"}, {"b", c06Unknown, "a"}, {c06Unknown}}
+		// names with a blank or a tab around them are names no row has: the rows they resemble stay as they are
+		nameSets := [][]string{nil, {"a"}, {"b", "a"}, {c06Unknown, "b"}, {"b", c06Unknown, "a"}, {c06Unknown}, {" b"}, {"b\t", "a"}, {"b "}, {"B"}}
 		for _, seqs := range aligned {
 			for _, cmd := range []string{"toupper", "tolower", "unalign"} {
 				c06CheckCLI(c, box, c06CLICase{CLI: true, Cmd: cmd, Seqs: seqs})
